@@ -1,10 +1,45 @@
 """C14: a configured consistency checker sees every redundant copy."""
-from . import c13
+from . import c13, common as C, gen as G, scenario as S, matrix as M
 
 PROPS = "theories/Props/C14.v"
+
+
+def separate_filesystems(ctx):
+    """Every level of the stack on a FRESH filesystem of its own: the copies of the key are then the first
+    file of their filesystem and carry the SAME inode number on different devices.  Copies that differ must
+    still be compared (a file is identified by device AND inode).  -> (violations, ties, runs)"""
+    violations, ties, n = [], [], 0
+    cases = []
+    for w, rs, contents in ((None, (("plain",), ("plain",)), ("A", "B")), (None, (("plain",), ("plain",), ("plain",)), ("A", "B", "A")),
+                            (("plain", 100), (("plain",),), ("A", "B")), (("plain", 100), (("plain",), ("plain",)), ("-", "A", "B"))):
+        for op in (("get",), ("gou", "accept", "val:A"), ("ensure", "val:A")):
+            if w is None and op[0] == "ensure":
+                continue
+            cases.append(M._one(w, rs, contents, "byteeq", op))
+    spec = M.spec_outcomes(sorted(set(d["abs"] for d, _ in cases)))
+    for desc, L in cases:
+        mounts = (["w"] if desc["w"] else []) + ["r%d" % i for i in range(len(desc["rs"]))]
+        try:
+            impl = S.run_impl(L, mounts=mounts)
+        except S.MountUnavailable:
+            return [], [], 0          # no privilege to mount here: the section is skipped (and counted as 0 runs)
+        except Exception as ex:
+            ties.append({"what": "separate-filesystem run failed", "detail": repr(ex)}); continue
+        n += 1
+        # the premise: the copies do carry the same inode number
+        ob = M.observe(desc, impl)
+        sp = spec.get(desc["abs"])
+        if ob is None or sp is None:
+            ties.append({"what": "no observation/spec (separate filesystems)", "case": desc["abs"]}); continue
+        bad = [b for b in M.matches_spec(desc, ob, sp) if b[0] == "res"]
+        if bad:
+            violations.append({"what": "with every level on its own filesystem (copies share an inode number across devices): " + "; ".join("%s observed=%s documented=%s" % b for b in bad),
+                               "classification": {"kind": "copy-not-compared-across-filesystems", "op": " ".join(str(x) for x in desc["op"])},
+                               "replay": {"kind": "configuration", "abstract": desc["abs"], "scenario": L, "mounts": mounts, "observed": ob, "documented": sp}})
+    return violations, ties, n
 
 
 def run(ctx):
     # same matrix, checker settings only; judged on the result class and (counting checker) the exact comparisons
     return c13.run(ctx, prop="C14", props=PROPS, checkers=("byteeq", "panic", "count", "counterr", "countnf"),
-                   field_filter=lambda desc, b: b[0] in ("res", "cmps"))
+                   field_filter=lambda desc, b: b[0] in ("res", "cmps"), extra=separate_filesystems)
